@@ -60,9 +60,9 @@ def run(chk):
         got_c = [f for _, f in r["tunw_c"]]
         delivered += len(got_s) + len(got_c)
         if r["scenario"] == "clean":
-            for side, sent, got, up in (("server", r["accepted_c"], got_s, True), ("client", r["accepted_s"], got_c, False)):
+            for side, sent, offered, got, up in (("server", r["accepted_c"], r["sent_c"], got_s, True), ("client", r["accepted_s"], r["sent_s"], got_c, False)):
                 must = [f for _, f in sent if fragments_needed(f, r, up) <= 12]
-                may = {f for _, f in sent}
+                may = {f for _, f in offered}
                 why = None
                 if any(f not in may for f in got):
                     why = "a packet was written to the %s's tun device that was never offered" % side
